@@ -313,9 +313,13 @@ def lex_continue(
     # Since Numeric objects can begin with a reserved
     # character, the reserved characters may split up
     # the lexeme.
-    if (
-        char in g.numeric_start_chars
-        and Token(char + next_char, grammar=g).is_numeric()
+    # A sign may also be followed by a leading decimal point (+.5).
+    if char in g.numeric_start_chars and (
+        Token(char + next_char, grammar=g).is_numeric()
+        or (
+            next_char == "."
+            and Token(char + next_char + "0", grammar=g).is_numeric()
+        )
     ):
         return True
 
